@@ -70,7 +70,7 @@ HARNESSES = [
     H('k_append_strings', 'kani_header.rs', ['C09'], bounded='fixed prior store lengths, fixed short strings', timeout=900, doc='IndexData::append String/StringArray/I18NString: NUL-terminated items'),
     H('k_read_hex_u32', 'kani_payload.rs', ['C07', 'C04'], bounded='streams of <= 10 bytes (all byte values)', timeout=900, doc='read_hex_u32: Ok consumes exactly 8 bytes and returns the hex number; short input is Err; no panic'),
     H('k_file_entry_index_stripped', 'kani_payload.rs', ['C07', 'C04'], bounded='2 header entries (all u32 indexes)', timeout=600, doc='Reader::file_entry_index for stripped entries: Some(idx) iff idx < len'),
-    H('k_file_entry_index_cpio', 'kani_payload.rs', ['C07'], bounded='3 header entries, 7 fixed names', timeout=900, doc='Reader::file_entry_index for cpio entries: lookup by path, independent of position'),
+    H('k_file_entry_index_cpio', 'kani_payload.rs', ['C07'], bounded='3 header entries, 9 fixed names', timeout=900, doc='Reader::file_entry_index for cpio entries: lookup by path, independent of position'),
     H('k_take_till_nul_long', 'kani_header.rs', ['C01', 'C04', 'C05'], bounded='slice length <= 16', tier='thorough', timeout=1800, doc='take_till(==0) at a larger bound'),
     H('k_parse_binary_entry_long', 'kani_header.rs', ['C01', 'C04', 'C05'], bounded='slice length <= 16 (all u32 counts)', tier='thorough', timeout=1800, doc='parse_binary_entry at a larger bound'),
     H('k_dec_u16_long', 'kani_header.rs', ['C01', 'C04', 'C05'], bounded='slice length <= 12 (all u32 counts)', tier='thorough', timeout=1800, doc='parse_entry_data_number<u16> at a larger bound'),
